@@ -1,5 +1,156 @@
-/- Driver for C09 (stub until the property's model is written). -/
+/- Driver for C09.
+   `S` lines: the real qmail-remote smtp() against a scripted server — compared with `smtpRun`
+   (report bytes, bytes received by the server, exit status, and the relayed line of qmail-rspawn's
+   report()); the property predicates `verdictOK/kSound/rcptOrder` (Nq.Spec.RemoteVerdict) are evaluated
+   on what the implementation printed, against the line-based reading of the server's stream.
+   `R` lines: the real qmail-rspawn report() — compared with `rreport`; predicates
+   `rspawnSound/rspawnClasses/noUpgrade` on the implementation's line.
+   Line formats: see harness/c09_remote.c -/
 import Drv.Util
-open Drv
-def handle (st : Stats) (_line : String) : IO Stats := return { st with cases := st.cases + 1 }
+import Nq.RemoteSmtp
+import Nq.RspawnReport
+import Nq.Spec.RemoteVerdict
+
+open Nq Nq.SmtpOut Nq.RemoteSmtp Nq.RspawnReport Nq.Spec.RemoteVerdict Drv
+
+def parseWPoint (s : String) : Option (Option WPoint) :=
+  if s == "none" then some none
+  else if s == "helo" then some (some .helo)
+  else if s == "mail" then some (some .mail)
+  else if s == "data" then some (some .data)
+  else if s == "body" then some (some .body)
+  else if s == "final" then some (some .final)
+  else if s == "quit" then some (some .quit)
+  else if s.startsWith "rcpt" then (s.drop 4).toNat?.map (fun i => some (.rcpt i))
+  else none
+
+def verdictStr : Verdict → String
+  | .K => "K" | .Z => "Z" | .D => "D" | .lost true => "Z-lost-possible-duplicate" | .lost false => "Z-lost"
+
+def parseRcpts (s : String) : Option (List Bytes) :=
+  if s == "." then some [] else (s.splitOn ",").mapM unhex
+
+def parseIp (s : String) : Option Bytes :=
+  match unhex s with
+  | some [a, b, c, d] => some (ipFmt a b c d)
+  | _ => none
+
+/-- bytes `blast()` has put before the end of the message is reached -/
+def stepsOut : RSt → Bytes → Bytes × RSt
+  | s, [] => ([], s)
+  | s, c :: m => let (o, s') := stepsOut (rstep s c).1 m; ((rstep s c).2 ++ o, s')
+
+def encodedBody (m : Bytes) : Bytes :=
+  let (o, s) := stepsOut .top m
+  o ++ (match rfinish s with | some f => f | none => [])
+
+def wireAgrees (r : Res) (msg wire : Bytes) : Bool :=
+  if r.wireOpen then r.wire.isPrefixOf wire && wire.isPrefixOf (r.wire ++ encodedBody msg)
+  else r.wire == wire
+
+/-- the report stream of qmail-remote: NUL-terminated records, the last one K/Z/D, the others r/h/s -/
+def parseOut (out : Bytes) : Option Obs :=
+  if out.getLast? != some NUL then none else
+  let rs := records [] out
+  match rs.reverse with
+  | [] => none
+  | m :: revr =>
+    let rl := revr.reverse.map headB
+    if isKZD (headB m) && rl.all (fun c => c == lR || c == lH || c == lS) then
+      some ⟨rl, headB m, hasInfix dupMark m⟩
+    else none
+
+/-- codes by the line-based reading, when every line is well formed and every reply starts with digits -/
+def specCodes (stream : Bytes) : Option (List Nat) :=
+  if wfLines stream then (specFrames stream).mapM decCode else none
+
+def handleS (st : Stats) (line : String) (f : List String) : IO Stats := do
+  match f with
+  | [_, ipS, heloS, senderS, rcptsS, msgS, msgerrS, streamS, chunk, wk, endmode, wlabelS, outS, wireS, exitS, relayS] =>
+    match parseIp ipS, unhex heloS, unhex senderS, parseRcpts rcptsS, unhex msgS, unhex streamS,
+          parseWPoint wlabelS, unhex outS, unhex wireS, unhex relayS with
+    | some host, some helo, some sender, some rcpts, some msg, some stream, some wf, some out, some wire, some relay =>
+      let a : Args := { host, helo, sender, rcpts, msg, msgErr := msgerrS == "1" }
+      let sc : Script := { stream, wfail := wf }
+      let inKey := hash (String.intercalate " " [ipS, heloS, senderS, rcptsS, msgS, msgerrS, streamS, wlabelS])
+      let fresh := !st.seen.contains inKey
+      let mut st := { st with cases := st.cases + 1, seen := st.seen.insert inKey }
+      st := st.bump "smtp_cases"
+      st := st.bump ("chunk" ++ chunk)
+      st := st.bump ("wfail_" ++ (if wlabelS.startsWith "rcpt" then "rcpt" else wlabelS))
+      st := st.bump ("nrcpt" ++ toString (min rcpts.length 4))
+      -- model
+      let res := smtpRun a sc
+      let mout := render res
+      let mrelay := rreport 0 out [33]
+      if !(mout == out && wireAgrees res msg wire && exitS == "0" && mrelay == relay) then
+        IO.println s!"DISAGREE kind=S in={streamS} ip={ipS} helo={heloS} sender={senderS} rcpts={rcptsS} msg={msgS} msgerr={msgerrS} chunk={chunk} wk={wk} endmode={endmode} wlabel={wlabelS} impl_out={outS} impl_wire={wireS} exit={exitS} impl_relay={relayS} model_out={hex mout} model_wire={hex res.wire} model_relay={hex mrelay}"
+        st := { st with disagree := st.disagree + 1 }
+      -- oracle, on the implementation's output
+      let (codes, wfS) := match specCodes stream with
+        | some cs => (cs, true)
+        | none => ((frames .d1 [] stream).map codeNat, false)
+      st := st.bump (if wfS then "stream_wellformed" else "stream_garbage")
+      let as : AScript := { codes, n := rcpts.length, msgErr := a.msgErr, msgPartial := (rblast msg).isNone, wfail := wf }
+      let e := expect as
+      let mut why := ""
+      if exitS != "0" then why := why ++ "exit_nonzero,"
+      match parseOut out with
+      | none => why := why ++ "malformed_report_stream,"
+      | some o =>
+        if !kSound as o then why := why ++ "K_unsound,"
+        if !rcptOrder as o then why := why ++ "recipient_reports_wrong_or_out_of_order,"
+        if !verdictOK e.v o then why := why ++ "wrong_class,"
+        if o.rl != e.rl then why := why ++ "recipient_classes,"
+        st := st.bump ("verdict_" ++ String.singleton (Char.ofNat o.ml.toNat) ++ (if o.dup then "_dup" else ""))
+        if fresh && (o.ml != cK || stream.contains DASH) then st := { st with nontrivial := st.nontrivial + 1 }
+      -- the relayed line
+      if !rspawnSound 0 out relay then why := why ++ "relay_K_unsound,"
+      if !rspawnClasses 0 out relay then why := why ++ "relay_class,"
+      if !noUpgrade out relay then why := why ++ "relay_upgrade,"
+      if headB relay == cK && !(e.v == .K && e.rl.head? == some lR) then why := why ++ "relay_K_but_not_accepted,"
+      if why != "" then
+        IO.println s!"ORACLE kind=S in={streamS} why={why} ip={ipS} helo={heloS} sender={senderS} rcpts={rcptsS} msg={msgS} msgerr={msgerrS} chunk={chunk} wk={wk} endmode={endmode} wlabel={wlabelS} out={outS} wire={wireS} exit={exitS} relay={relayS} expected={verdictStr e.v}"
+        st := { st with oracle := st.oracle + 1 }
+      if fresh && st.samples < 3 && wfS && rcpts.length ≥ 2 && stream.contains DASH && codes.length ≥ 5 then
+        IO.println s!"SAMPLE kind=S stream={streamS} nrcpt={rcpts.length} wlabel={wlabelS} out={outS} relay={relayS}"
+        st := { st with samples := st.samples + 1 }
+      return st
+    | _, _, _, _, _, _, _, _, _, _ =>
+      IO.println s!"DISAGREE unparsable line {line}"; return { st with disagree := st.disagree + 1 }
+  | _ => IO.println s!"DISAGREE unparsable line {line}"; return { st with disagree := st.disagree + 1 }
+
+def handleR (st : Stats) (line : String) (f : List String) : IO Stats := do
+  match f with
+  | [_, wstatS, outS, relayS] =>
+    match wstatS.toNat?, unhex outS, unhex relayS with
+    | some wstat, some out, some relay =>
+      let inKey := hash (wstatS ++ " " ++ outS)
+      let fresh := !st.seen.contains inKey
+      let mut st := { st with cases := st.cases + 1, seen := st.seen.insert inKey }
+      st := st.bump "report_cases"
+      if fresh && wstat == 0 && out.contains NUL then st := { st with nontrivial := st.nontrivial + 1 }
+      let m := rreport wstat out [33]
+      if m != relay then
+        IO.println s!"DISAGREE kind=R in={outS} wstat={wstatS} impl_relay={relayS} model_relay={hex m}"
+        st := { st with disagree := st.disagree + 1 }
+      let mut why := ""
+      if !rspawnSound wstat out relay then why := why ++ "relay_K_unsound,"
+      if !rspawnClasses wstat out relay then why := why ++ "relay_class,"
+      if wstat == 0 && !out.isEmpty && !noUpgrade out relay then why := why ++ "relay_upgrade,"
+      if why != "" then
+        IO.println s!"ORACLE kind=R in={outS} why={why} wstat={wstatS} relay={relayS}"
+        st := { st with oracle := st.oracle + 1 }
+      st := st.bump ("relay_" ++ String.singleton (Char.ofNat (headB relay).toNat))
+      return st
+    | _, _, _ => IO.println s!"DISAGREE unparsable line {line}"; return { st with disagree := st.disagree + 1 }
+  | _ => IO.println s!"DISAGREE unparsable line {line}"; return { st with disagree := st.disagree + 1 }
+
+def handle (st : Stats) (line : String) : IO Stats := do
+  let f := fields line
+  match f.head? with
+  | some "S" => handleS st line f
+  | some "R" => handleR st line f
+  | _ => IO.println s!"DISAGREE unparsable line {line}"; return { st with disagree := st.disagree + 1 }
+
 def main : IO Unit := runDriver handle
